@@ -365,6 +365,15 @@ func concretise(c *expCase) (*concrete, error) {
 			cc.docs[d]["x-bad-array"] = []interface{}{1}
 			cc.docs[d]["x-bad-null"] = nil
 			cc.docs[d]["x-bad-emptyobj"] = map[string]interface{}{}
+			// schema unions in their non-schema alternative, inside a (typed) definition: pointers that run
+			// THROUGH them designate nothing
+			defs, _ := cc.docs[d]["definitions"].(map[string]interface{})
+			if defs == nil {
+				defs = map[string]interface{}{}
+				cc.docs[d]["definitions"] = defs
+			}
+			defs["XBadUnions"] = map[string]interface{}{"title": "unions", "additionalProperties": false, "additionalItems": true,
+				"items": []interface{}{map[string]interface{}{"title": "tuple"}}, "dependencies": map[string]interface{}{"a": []interface{}{"b"}}}
 		}
 	}
 	// 1. pointer tokens of every node (owners have smaller indices)
@@ -561,7 +570,7 @@ func idFor(class string, i int) string {
 	return class
 }
 
-var faultClasses = []string{"noptr", "nodoc", "string", "number", "bool", "array", "casevar"}
+var faultClasses = []string{"noptr", "nodoc", "string", "number", "bool", "array", "casevar", "thrubool", "thrutuple", "thrudeps"}
 
 // oddTargets (-oddtargets): targets that exist but are not objects of the expected kind in a way
 // the error discipline (C08) says nothing about: JSON null, an empty object
@@ -585,6 +594,12 @@ func danglingRef(cc *concrete, c *expCase, i int) string {
 		return "nulldoc" + strconv.Itoa(i) + ".json"
 	case "string", "number", "bool", "array", "null", "emptyobj":
 		return "#/x-bad-" + fault
+	case "thrubool":
+		return "#/definitions/XBadUnions/additionalProperties/properties/x"
+	case "thrutuple":
+		return "#/definitions/XBadUnions/items/first/title"
+	case "thrudeps":
+		return "#/definitions/XBadUnions/dependencies/a/properties/x"
 	case "casevar":
 		// the name of the top-level element this ref lives in, with the case of its letters flipped
 		top := i
